@@ -9,7 +9,7 @@ def run(ctx):
 
     ctx.assumptions += [
         "fault model: a user callback (input eval, counted scope function = Sylvester solver, operator) raises at a given global invocation index; classes Exception-subclass, RuntimeError, KeyboardInterrupt",
-        "theorem C11_exn_safe: no Pending entry left and later Ok-values equal the undisturbed ones; that later requests do return is a termination property checked by the harness only",
+        "theorem C11_exn_safe: no Pending entry left and later Ok-values equal the undisturbed ones; C11_later_requests_terminate: later requests never run out of fuel (stratified programs); that they return a value rather than raise again is checked by the harness only",
         "operator faults are injected at the series_computation level (block_diagonalize has no operator argument)",
     ]
     ctx.translate()
